@@ -47,7 +47,7 @@ def gen_domain(t, feat=None, multi_agent=False):
     ntypes = 1 + t.draw(f["max_types"])
     # names are drawn from shuffled pools so that alphabetical / hash order is independent of structure (depth in the
     # type tree, declaration order, arity)
-    names = t.shuffle([f"t{i}" for i in range(6)])[:ntypes]
+    names = t.shuffle(["t0", "t1", "t-2", "t_3", "tt", "t10"])[:ntypes]
     types = {}
     if multi_agent:
         types["agent"] = "object"
@@ -57,28 +57,29 @@ def gen_domain(t, feat=None, multi_agent=False):
     tnames = list(types)
     D["constants"] = {}
     if f["constants"] and t.chance(1, 2):
-        knames = t.shuffle(["k0", "k1", "k2"])
+        knames = t.shuffle(["k0", "k1", "k-2", "k_3", "k10"])
         for i in range(1 + t.draw(2)):
             D["constants"][knames[i]] = t.pick(names)
     preds = {}
-    pnames = t.shuffle([f"p{i}" for i in range(6)])
+    pnames = t.shuffle(["p0", "p1", "p-2", "p_3", "pp", "p10"])
     for i in range(1 + t.draw(f["max_preds"])):
-        ar = t.draw(3) if i else 1
+        ar = t.draw(4) if i else 1
         preds[pnames[i]] = [t.pick(tnames) for _ in range(ar)]
     D["predicates"] = preds
     funcs = {}
     if f["numeric"]:
-        fnames = t.shuffle([f"f{i}" for i in range(5)])
+        fnames = t.shuffle(["f0", "f1", "f-2", "f_3", "ff"])
         for i in range(1 + t.draw(f["max_funcs"])):
             funcs[fnames[i]] = [t.pick(tnames) for _ in range(t.draw(3))]
     D["functions"] = funcs
     acts = {}
-    anames = t.shuffle([f"a{i}" for i in range(6)])
+    anames = t.shuffle(["a0", "a1", "a-2", "a_3", "aa", "a10", "nop-wait", "noop", "no-op"])
     for ai in range(1 + t.draw(f["max_actions"])):
         npar = t.draw(f["max_params"] + 1)
         params = [(f"?x{j}", t.pick(tnames)) for j in range(npar)]
         if multi_agent:
-            params = [("?ag", "agent")] + params
+            k = t.draw(len(params) + 1) if f.get("agent_anywhere", True) else 0
+            params = params[:k] + [("?ag", "agent")] + params[k:]
         acts[anames[ai]] = {
             "params": params,
             "pre": gen_conj(t, D, params, f, top=True),
@@ -209,7 +210,9 @@ def gen_effects(t, D, params, f):
         for _ in range(t.draw(2)):
             ty = t.pick(list(D["types"]))
             v = "?u"
-            sc = params + [(v, ty)]
+            if f.get("shadowing", True) and params and t.chance(1, 6):
+                v = t.pick(params)[0]  # shadows a parameter: inside the forall the name denotes the quantified object
+            sc = [(n, tt) for n, tt in params if n != v] + [(v, ty)]
             c = [x for x in (gen_lit(t, D, sc, fc) for _ in range(1 + t.draw(2))) if x]
             e = gen_simple_effects(t, D, sc, f, 1 + t.draw(2))
             if c and e:
@@ -227,11 +230,16 @@ def gen_problem(t, D, feat=None, agents=0):
     f.update(feat or {})
     names = [n for n in D["types"] if n != "agent"]
     objs = {}
-    agnames = t.shuffle([f"ag{i}" for i in range(max(agents, 1) + 2)])
+    agnames = t.shuffle(["ag0", "ag1", "ag10", "ag-1", "ag_2", "agx"][:max(agents, 1) + 2])
     for i in range(agents):
         objs[agnames[i]] = "agent"
-    onames = t.shuffle([f"o{i}" for i in range(9)])
-    for i in range(2 + t.draw(max(1, f["max_objects"] - 1))):
+    # object names include ones that embed an agent's name at a hyphen boundary
+    onames = t.shuffle(["o0", "o1", "o10", "o-1", "o_1", "o1a", "oo", "o2", "o3"] + (
+        [f"pad-{agnames[0]}", f"{agnames[-1]}-b"] if agents else []))
+    nobj = 2 + t.draw(max(1, f["max_objects"] - 1))
+    if D["constants"] and not agents and t.chance(1, 12):
+        nobj = 0  # every individual is a domain constant: the problem declares no objects at all
+    for i in range(nobj):
         objs[onames[i]] = t.pick(names)
     allobj = {**objs, **D["constants"]}
     facts = set()
